@@ -329,7 +329,8 @@ class NestedChildren(WrappingQuery):
                 m.next()
 
                 # Find the next parent document (matching or not) after this
-                nextparent = comb.after(nextchild)
+                # (the document right after a childless parent is a parent)
+                nextparent = comb.after(nextchild - 1)
                 if nextparent is None:
                     nextparent = limit
 
